@@ -69,13 +69,11 @@ func (m *KV) Set(a, k string, v []byte) {
 	delete(m.Unknown, sk(a, k))
 }
 
-// Add is the non-journaled write.
+// Add is the write through AddState. It used to bypass the change journal (a revert then left the value
+// undetermined, which is what the Unknown marks were for); since the repair 19e57a5f it is journaled like
+// Set, and the specification treats it as such: a revert restores the value from before the Add.
 func (m *KV) Add(a, k string, v []byte) {
-	m.acct(a).State[k] = cp(v)
-	delete(m.Unknown, sk(a, k))
-	for _, s := range m.added {
-		s[sk(a, k)] = true
-	}
+	m.Set(a, k, v)
 }
 
 func cp(v []byte) []byte {
